@@ -185,6 +185,8 @@ def reference_value(d, sim, real, flags=None):
         if k == "msm" and d["calc"] == "default":
             if any(R.moments_ill_conditioned(c) for c in col) or R.moments_ill_conditioned(real[:, i]):
                 return None, "moments 0/0 or root at 0"
+        if k == "msm":
+            one.data_scale = float(max(np.max(np.abs(sim[:, :, i])), np.max(np.abs(real[:, i])), 1e-300))
         v = one(col, real[:, i])
         if v is None:
             return None, "value not determined by the definition (rounding convention at an exact half, sigma 0, or 0/0 weighting)"
